@@ -463,6 +463,9 @@ class TreeMapView(Mapping[TreeMapKey, LeafValueT]):
     if isinstance(tree, NullMap):
       if self.strict:
         raise ValueError('Input tree cannot be empty when "strict" is True.')
+      if _is_key(key_path[0], _SKIP):
+        # An ignored output does not create a key in an empty tree either.
+        return tree
       return _default_tree(key_path, value)
     elif not hasattr(tree, '__setitem__'):
       # Returns a copy of a tuple from internals.
